@@ -93,6 +93,10 @@ def _one(prop: str, base: str, m: Dict[str, Any], baseline: set) -> Dict[str, An
         has_v = any(ln.startswith('VIOLATION ') for ln in res.stdout.splitlines())
         if res.returncode == 1 and fired and has_v:
             return {'id': m['id'], 'status': 'detected', 'expect': m['expect'], 'report': fired[0][:300]}
+        refused = [ln for ln in res.stdout.splitlines() if ln.startswith('UNRECOGNISED ') and f'[{m["expect"]}]' in ln]
+        if m.get('refuse_ok') and res.returncode == 2 and refused:
+            # the variant leaves the enumerated idioms: the check declines to give a verdict (never a silent pass)
+            return {'id': m['id'], 'status': 'refused', 'expect': m['expect'], 'report': refused[0][:300]}
         return {'id': m['id'], 'status': 'MISSED', 'expect': m['expect'], 'exit': res.returncode,
                 'stdout_tail': res.stdout[-600:]}
     finally:
@@ -124,6 +128,7 @@ def run_selftest(ctx: Any, prop: str, rules: Any) -> None:
         'detected': sum(1 for r in results if r['status'] == 'detected'),
         'negative_controls_silent': sum(1 for r in results if r['status'] == 'silent-ok'),
         'repairs_silence_known_findings': sum(1 for r in results if r['status'] == 'repair-silences'),
+        'refused_no_verdict': sum(1 for r in results if r['status'] == 'refused'),
         'stale': [r['id'] for r in results if r['status'] == 'stale'],
         'results': results,
     }
